@@ -118,6 +118,12 @@ class PyUnit:
             t = z3.Int(name)
             setattr(e, name, t)
             return PAny(t)
+        if kind.startswith("const:"):
+            # a parameter fixed to one string constant by this unit (one unit per value): its text is known to the front end
+            from .pyfe import intern_id
+            text = kind[6:]
+            setattr(e, name, intern_id(text))
+            return PStr([z3.IntVal(ord(c)) for c in text], text=text)
         if kind == "str":
             # text of unbounded length: characters <name>.chars[i], 0 <= i < <name>.len
             from .pyfe import PSeq
